@@ -97,10 +97,14 @@ package loader
 //@ func (l *Loader) updates()
 //@   ghostset needFilters 0
 //@   requires l != nil && l.loggerProvider != nil && l.unmarshaled != nil
-//@   modifies ghost.needFilters, ghost.sends, ghost.lastSent
+//@   modifies ghost.needFilters, ghost.sends, ghost.lastSent, ghost.lastBuilt, ghost.builds
 //@   after[C16] Loader.build : ghost.needFilters = 1
+//@   after[C13,C16] Loader.build : ghost.lastBuilt = ret0
+//@   after[C13,C16] Loader.build : ghost.builds = ghost.builds + 1
+//@   ghostset builds 0
 //@   after[C16] Loader.createPrefixFilters : ghost.needFilters = 0
 //@   before[C16] Loader.createPrefixFilters : ghost.needFilters == 1 && arg1 == c
 //@   before[C16] Loader.build : arg1 == c
 //@   loop 1 invariant[C16] ghost.needFilters == 0
+//@   loop 1 invariant[C13,C16] ghost.builds >= 0 && (ghost.builds > 0 ==> providers == ghost.lastBuilt)
 //@   loop 1 invariant prefixDeny != nil && prefixAllow != nil
